@@ -9,6 +9,7 @@ ID = "C14"
 LEVEL = "exploration"
 ENV = {"x64": False, "devices": 1}
 BUDGET = {"quick": 130, "thorough": 2700}
+TRACE_CASES = True      # expensive cases: record the case in flight so a hang can be named
 RULE = (
     "Hypothesis-built (optimizer in {Distributed Shampoo full / int8+int16 "
     "quantised under pmap / compressed / frequent directions (+ gradient "
